@@ -33,6 +33,22 @@ STRENGTHENED = {
     "C16_3": "lingen: columns spelled like global variables (current_date ...), referenced qualified / back-quoted",
     "C17_2": "lingen: one table name in two schemas within a statement",
     "C17_3": "lingen: mixed-case aliases of derived tables and base tables",
+    "C20_4": "child cursors handed out by a call history are checked to start at their first token, and one token of each is consumed",
+    "C20_6": "base lexer and plug-in lexer asked about the same short placeholder text one after the other in one process",
+    "C02_6": "exhaustive two-link chains of keyword predicates (BETWEEN / IN / IS / LIKE / RLIKE / REGEXP), also under AND and NOT",
+    "C06_4": "back-quoted names as implicit aliases (no AS) with clause keywords as payload",
+    "C06_6": "literals in every arm of the CASE-value form, payloads with line breaks; printed SQL must carry them unchanged",
+    "C11_4": "regenerated census of field flags (compare / hash) as a theorem; copies differing in one field must be unequal",
+    "C11_5": "several helper histories on structurally equal receivers one after the other in one process",
+    "C13_4": "DDL with every MySQL / Hive column attribute and table option printed in every dialect (printer tie + re-parse)",
+    "C01_4": "round trip over the structure-aware statements (window frames incl. bound 0, CASE / CAST, nested queries, WITH, Hive clauses)",
+    "C07_6": "(caught by C19) every Python-level call inside the library counted by a profile hook; work must not grow faster than the input",
+    "C10_5": "texts whose only ';' are inside quotes (incl. backslash-escaped quotes) must parse to exactly one statement",
+    "C14_5": "qgen: NATURAL JOIN after an unaliased table",
+    "C14_6": "160 different WITH queries analysed one after the other in one process",
+    "C15_4": "qgen: window functions with integer constants in their ORDER BY",
+    "C15_5": "qgen: one-letter aliases b / X",
+    "C19_4": "family 'nested calls' and the call-count measure (repr work is invisible to cursor counters)",
     "C19_3": "pattern 'blanks' (long runs of white space) in the scaled inputs; seconds used only in the search phase",
 }
 
